@@ -6,6 +6,7 @@ mod observe;
 mod optval;
 mod registry;
 mod util;
+mod views;
 mod wire;
 
 use util::*;
@@ -32,6 +33,10 @@ fn main() {
         ("replay", "linkparse") => link::replay_linkparse(&args),
         ("replay", "linkfault") => link::replay_linkfault(&args),
         ("rec", "link") => link::rec_link(&args),
+        ("replay", "views") => views::replay_views(&args),
+        ("replay", "exchange") => views::replay_exchange(&args),
+        ("rec", "views") => views::rec_views(&args),
+        ("rec", "response") => views::rec_response(&args),
         ("rec", "wire-bytes") => wire::rec_wire_bytes(&args),
         ("rec", "wire-build") => wire::rec_wire_build(&args),
         ("rec", "wire-limit") => wire::rec_wire_limit(&args),
